@@ -471,7 +471,13 @@ fn write_opts_of(p: &Command, p_global: Option<&Command>) -> String {
             Some(val) => format!(":{vn}:{val}"),
             None => format!(":{vn}: "),
         };
-        let vc = vc.repeat(o.get_num_args().expect("built").min_values());
+        let min_values = o.get_num_args().expect("built").min_values();
+        let vc = if min_values == 0 {
+            // the value is optional (`::message:action`): still complete it
+            format!(":{vc}")
+        } else {
+            vc.repeat(min_values)
+        };
 
         if let Some(shorts) = o.get_short_and_visible_aliases() {
             for short in shorts {
